@@ -7,7 +7,7 @@ from propcfg import PROPS, MANIFEST_TEXT, NOT_APPLICABLE, HOOK_COMMITS
 checks = []
 for pid in sorted(PROPS):
     c = PROPS[pid]
-    if c.get("unclaimed"):
+    if c.get("unclaimed") or c.get("hidden"):
         continue
     m = MANIFEST_TEXT[pid]
     checks.append(dict(
@@ -31,9 +31,9 @@ doc = dict(
     engines=[
         dict(name="rapidcheck-tape", path="harness/rc_main.cpp", serves_properties=[c["property_id"] for c in checks],
              kind_free_text="rapidcheck generates a shrinkable tape of choices; per-property decoders turn it into structured cases (programs, fault sets, schedules); oracle inside the property TU; shrunk failure = replay file"),
-        dict(name="libfuzzer-tape", path="harness/fuzz_main.cpp", serves_properties=[p for p in sorted(PROPS) if PROPS[p].get("fuzz")],
+        dict(name="libfuzzer-tape", path="harness/fuzz_main.cpp", serves_properties=[p for p in sorted(PROPS) if PROPS[p].get("fuzz") and not PROPS[p].get("hidden")],
              kind_free_text="libFuzzer feeds the same decoders from mutated bytes (coverage-guided); ASan; semantic oracle inside the target"),
-        dict(name="enumerators", path="harness/props", serves_properties=[p for p in sorted(PROPS) if PROPS[p].get("enumerate")],
+        dict(name="enumerators", path="harness/props", serves_properties=[p for p in sorted(PROPS) if PROPS[p].get("enumerate") and not PROPS[p].get("hidden")],
              kind_free_text="complete enumeration of small finite sub-spaces (reported separately with their bound)"),
     ],
     checks=checks,
